@@ -8,6 +8,7 @@ NOTE = ('trusted base: clang++-14 front end, the opt-14 passes named in lib/pipe
         'cbmc 6.11 + SAT back end, the harness oracles; allocation failure, use-after-free, leaks and everything outside the stated bounds are not covered')
 
 CLAIMED = {
+    'C15': ('All operators of rational, inf_rational and lin are executed on fully symbolic operands (|num|, den <= B; integer coefficients for lin) and compared by the solver with exact cross-multiplication, canonicity (reduced, positive denominator) and the total order incl. infinities; 64-bit machine words, signed-overflow and division-by-zero checks on. Shapes that change the structure of a lin map (which variables cancel, zero scalar) are enumerated by the driver. Bounded by B, not a proof for all magnitudes.', '5 C15'),
     'C13': ('Every reified construct (eq/conj/disj/at-most-one/exactly-one) of the real sat_core is built for every argument shape inside the bound (operator, argument variables incl. '
             'the constant, signs, duplicates, complements, root pre-assignments, second construction through the cache); for each shape cbmc decides for ALL total assignments that the '
             'returned literal has the value of the formula in every model of the clause database and that no assignment of the original variables is excluded. Bounded (<=2 arguments quick, '
